@@ -146,7 +146,6 @@ def ops():
 TAINTED = {
     # multi-name edits are loops over single edits: rejected half-way they are partial (minimal scenario: add_parameters(p1,k1))
     "add_parameters(p1,k1)", "add_parameters(p1,p2)", "remove_parameters(ku,n)", "scale_parameters(k1,k2)", "add_variables(w1,w2)", "update_variables(x,y)",
-    "make_parameter_dynamic(ku,stoich nope)", "add_surrogate(s2 output clashes k1)", "update_surrogate(sur output clashes k1)",
 }
 
 
